@@ -1450,7 +1450,22 @@ def gen_direct_task(rng, ground='shared_ideal', maxops=20):
         wires.append([n, 0, 0, 0, 0, 0, L / 2, r])
         wires.append([rng.randrange(4, 8), L / 3, 0, 0, L / 3, 0, L / 2.5, r])
     npl = sum(w[0] - 1 for w in wires)
-    sources = [[rng.choice(['1', '1+0.5j', '2']), rng.randrange(0, npl)]]
+    if rng.random() < 0.3:
+        sources = [['mp', rng.choice([1.0, 2.5]), rng.choice([0.0, 30.0, -90.0]), rng.randrange(0, npl)]]
+    else:
+        sources = [[rng.choice(['1', '1+0.5j', '2']), rng.randrange(0, npl)]]
+    if rng.random() < 0.3:
+        sources.append([rng.choice(['1', '0.5-1j']), rng.randrange(0, npl)])
+    xloads = []
+    r3 = rng.random()
+    if r3 < 0.12:
+        xloads.append(['rlc', rng.choice([5.0, 0.0]), rng.choice([2e-6, None]), rng.choice([1e-10, None]), rng.randrange(0, npl)])
+    elif r3 < 0.24:
+        xloads.append(['trap', 1.0, 1e-6, 1e-10, rng.randrange(0, npl)])
+    elif r3 < 0.36:
+        xloads.append(['laplace', [1.0, 1e-9], [0.0, 1e-6], rng.randrange(0, npl)])
+    elif r3 < 0.48:
+        xloads.append(['insul', rng.choice([1.5, 3.0]), rng.choice([2.3, 4.0]), rng.randrange(len(wires))])
     loads = []
     if rng.random() < 0.4:
         loads.append([rng.choice(['50+3j', '10-100j']), rng.randrange(0, npl)])
@@ -1485,7 +1500,8 @@ def gen_direct_task(rng, ground='shared_ideal', maxops=20):
         feats.append('load_skin_c')
     return dict(kind='api', builder='direct',
                 direct=dict(wires=wires, ground=ground, sources=sources, loads=loads, skin=skin,
-                            transforms=transforms, share_args=rng.random() < 0.8),
+                            transforms=transforms, share_args=rng.random() < 0.8, xloads=xloads,
+                            timing=rng.random() < 0.15, gauge=rng.choice([None, None, None, 12, 18])),
                 argv=[], pool=pool, fars=fars, nears=nears, ops=ops, template='direct_' + t,
                 env='ideal' if ground else 'free', features=feats, probes=probes,
                 npulses=npl + 2 * len(wires))
